@@ -10,6 +10,8 @@ SPEC = ["C01_PolyOps"]
 def bbox(polys):
     xs = [v[0] for p in polys for r in p for v in r]
     ys = [v[1] for p in polys for r in p for v in r]
+    if not xs:  # an operand without rings (family F1E): no extent
+        return 1, 1, 0, 0
     return min(xs), min(ys), max(xs), max(ys)
 
 
@@ -59,6 +61,7 @@ def run(run):
     run.distinct_nontrivial = len(ntriv)
     run.rule = ("F1: boxes, holed boxes and pairs of apart boxes on the even lattice x the same on the odd lattice x 4 operations x the "
                 "receiver/argument type matrix {Polygon, MultiPolygon, *Bounds}^2 (thinned by MT), every unit cell classified exactly; "
+                "F1E: an operand without rings (nil Polygon, empty Polygon, empty MultiPolygon) in either position, all four operations; "
                 "F2: valid lattice triangles/quadrilaterals in general position (TLC filter), integer x4 sample points with exact clear "
                 "margin; seeded random rectilinear operands in windows up to 28 cells. Non-trivial = bounding boxes overlap or a "
                 "non-Polygon operand type; distinct = distinct case")
